@@ -23,6 +23,11 @@ Go standard library, modelled and tied differentially (not verified): `path.Clea
 reads as Latin-1 (byte b = the character with code b, `B.emb`): Kap/Model/C20Bytes.lean gives the same definitions over
 any character type with the byte instance, Kap/Proofs/C20Bytes.lean proves that they commute with the reading.
 
+* The write path reads three URL parameters: `db` (required, decides the database resource the write is checked
+  against — `writeResource` — and where the points go), `rp` (handed to `WritePoints` unread — `writeTarget`) and
+  `precision` (time-stamp unit); every other parameter is ignored. `Req.rp` / `Req.params` carry them so that the
+  theorems quantify over them (`write_decision_ignores_rp_and_params`).
+
 Abstracted: JWT validation is an oracle (`Bearer.sigOK`, `exp`), the fake auth service is a finite table,
 request bodies of `/write` are always one well-formed point, gzip/json/version/requestID/log filters are
 transparent. The unbounded Go `for` loop gets explicit fuel; outcome `diverge` = fuel exhausted (theorem
@@ -423,12 +428,30 @@ def addRoutePattern (pre pat : Path) : Option Path :=
 def viaAddRoute (pattern : Path) : Bool :=
   [base, preview].any fun pre => pre.isPrefixOf pattern && (addRoutePattern pre (pattern.drop pre.length)).isSome
 
+/-- The query string of a request as `url.ParseQuery` hands it to the handler: decoded (key, value) pairs in the
+order they stand in the URL. -/
+abbrev Query := List (List Char × List Char)
+
+/-- `url.Values.Get(key)`: the FIRST value of the key, "" when the key is absent (absent and empty are the same
+to the caller). -/
+def qGet (q : Query) (key : List Char) : List Char :=
+  match q.find? (fun e => e.1 = key) with
+  | some e => e.2
+  | none => []
+
 structure Req where
   method : List Char
   path : Path
   auth : ReqAuth := {}
-  db : List Char := []          -- URL parameter db (the body is always one well-formed point)
+  db : List Char := []          -- `qp.Get("db")` (the body is always one well-formed point)
+  rp : List Char := []          -- `qp.Get("rp")`: handed to `PointsWriter.WritePoints`, read by nothing else
+  params : Query := []          -- every other URL parameter (precision, consistency, …; u and p are in `auth`)
 deriving Repr, DecidableEq
+
+/-- The write-relevant fields of a request, read off its query the way `serveWriteLine` does. -/
+def Req.withQuery (req : Req) (q : Query) : Req :=
+  { req with db := qGet q "db".toList, rp := qGet q "rp".toList,
+             params := q.filter (fun e => e.1 ≠ "db".toList ∧ e.1 ≠ "rp".toList) }
 
 structure HttpOut where
   status : Nat
@@ -451,10 +474,18 @@ def routeRequiresAuth (cfg : Cfg) (r : Route) : Bool :=
   if r.forward then cfg.requireAuth
   else if r.bypass && cfg.exposePprof then false else cfg.requireAuth
 
-/-- `serveWriteLine` after the body was parsed. -/
+/-- The resource `serveWriteLine` authorises the write against: `auth.DatabaseResource(qp.Get("db"))` — the database
+the points go to and nothing else of the request (not `rp`, not `precision`, not `consistency`). -/
+def writeResource (req : Req) : Path := databaseResource req.db
+
+/-- The `(database, retentionPolicy)` arguments of `h.PointsWriter.WritePoints`: where the points go. -/
+def writeTarget (req : Req) : List Char × List Char := (req.db, req.rp)
+
+/-- `serveWriteLine` after the body was parsed (`precision` only scales the time stamp of the point, an unknown
+unit counts as nanoseconds; `consistency` is not read at all: `models.ConsistencyLevelAll` is passed). -/
 def serveWriteLine (req : Req) (u : Account) : HttpOut :=
   if req.db = [] then { status := 400, user := some u }
-  else if authorizeAction u.user (databaseResource req.db) writePriv ≠ .allow then { status := 401, user := some u }
+  else if authorizeAction u.user (writeResource req) writePriv ≠ .allow then { status := 401, user := some u }
   else { status := 204, wrote := true, user := some u }
 
 /-- The request after `rewritePreview`. -/
